@@ -309,6 +309,7 @@ def triage_prepare(E):
         if t2 in texts.get((f2, k2), ()):
             exact.add((f2, k2, t2))
     _TRIAGE_STATE["exact"] = exact
+    _TRIAGE_STATE.pop("all_names", None)
 
 
 def _index_text(text):
@@ -355,6 +356,17 @@ def triage_lookup(ctx, s, key3):
     for (f2, k2, t2), inv2 in free:
         if f2 != fname and f2 in mod_funcs and alpha(t2, s.func) == mine:
             return inv2
+    # 4d. the entry's function no longer exists anywhere in the package (renamed, or merged into its caller / a new helper):
+    # its constructs are matched by kind and alpha-shape within the module the site is in
+    all_names = _TRIAGE_STATE.get("all_names")
+    if all_names is None:
+        all_names = set()
+        for g_ in ctx.db.funcs.values():
+            all_names.add((g_.cls.name + "." + g_.name) if g_.cls is not None else g_.name)
+        _TRIAGE_STATE["all_names"] = all_names
+    gone = {inv2 for (f2, k2, t2), inv2 in free if f2 not in all_names and alpha(t2, s.func) == mine}
+    if len(gone) == 1:
+        return gone.pop()
     # 4b. "extract method": the site sits in a private function that the triage table does not know and whose only
     # callers (in the package) are functions that have an entry with the same alpha-shape and kind: the construct
     # was moved out of them verbatim, so their invariant still speaks about it (the entry may still match a second
@@ -372,6 +384,18 @@ def triage_lookup(ctx, s, key3):
                 invs.add(hit[0] if hit else None)
             if len(invs) == 1 and None not in invs:
                 return invs.pop()
+            # 4c. the moved construct was rewritten on the way (e.g. an alias `ds` replaced by the attribute it names): accepted
+            # under invariant I when the module has an entry of the same kind and alpha-shape under I *and* every caller of the
+            # new helper already relies on I (has entries under I): the helper works on the same objects under the same
+            # hand-confirmed invariant
+            fam = None
+            for cn in cnames:
+                fi = {inv2 for (f2, k2, t2), inv2 in TRIAGE.items() if f2 == cn}
+                fam = fi if fam is None else (fam & fi)
+            if fam:
+                hits = {inv2 for (f2, k2, t2), inv2 in TRIAGE.items() if f2 in mod_funcs and k2 == kind and inv2 in fam and alpha(t2, s.func) == mine}
+                if len(hits) == 1:
+                    return hits.pop()
     if kind == "unpack":
         return _unpack_of_element(ctx, s, [(k, v) for k, v in TRIAGE.items() if k not in exact], mod_funcs)
     return None
@@ -786,6 +810,63 @@ def check_establishing(ctx, rep, E):
                        how="dominated by a raising test of the chain-start flag (establishes CHAIN_START)",
                        witness=None if ok else "a ring digit or branch bracket at the start of a chain dereferences the missing previous atom: "
                        "AttributeError instead of EncoderError", nontrivial=True, key="CHAIN_START/" + f.name)
+    # EST-FREE_DEGREE: the unguarded next() over the unmatched neighbours of a node is reached only under a dominating test
+    # that the node's free-degree counter is positive (the counter's meaning is the hand-confirmed invariant; that the
+    # search is *entered only under it* is visible in the code and is what a dropped guard breaks)
+    for key in E.order:
+        info = E.infos[key]
+        f = info.f
+        for st_ in info.sites:
+            if st_.kind != "next" or triage_lookup(ctx, st_, st_.key()[:3]) != "FREE_DEGREE":
+                continue
+            call = st_.node
+            gen = call.args[0] if isinstance(call, ast.Call) and call.args else None
+            node_txt = None
+            if isinstance(gen, ast.GeneratorExp) and isinstance(gen.generators[0].iter, ast.Subscript):
+                node_txt = u(gen.generators[0].iter.slice)
+
+            def positive_about(fs, txt):
+                for fc in fs:
+                    subj = None
+                    if fc[0] == "ne" and fc[2] == "0":
+                        subj = fc[1]
+                    elif fc[0] == "truthy":
+                        subj = fc[1]
+                    elif fc[0] == "cmp":
+                        t = fc[1].replace(" ", "")
+                        for pre, suf in (("", ">0"), ("", ">=1"), ("", "!=0"), ("0<", ""), ("1<=", ""), ("not(", "<=0)"), ("not(", "<1)"),
+                                         ("not(", "==0)"), ("not(0>=", ")"), ("not(0==", ")")):
+                            if t.startswith(pre) and t.endswith(suf) and len(t) > len(pre) + len(suf):
+                                subj = t[len(pre):len(t) - len(suf)]
+                                break
+                    if subj is not None and subj.replace(" ", "").endswith("[%s]" % txt.replace(" ", "")):
+                        return True
+                return False
+            ok = False
+            if node_txt is not None:
+                ok = positive_about(guard_facts(f, noreturn_pred(ctx, f)).get(id(call), frozenset()), node_txt)
+                if not ok and node_txt in f.params and f.name.startswith("_"):
+                    # the search was extracted into a private helper: the test must dominate every call of the helper, about
+                    # the argument bound to the node parameter
+                    callers = _callers_of(ctx, f)
+                    oks = []
+                    for c in callers:
+                        cf = guard_facts(c, noreturn_pred(ctx, c))
+                        for s2_ in ctx.cg.sites(c):
+                            if f in s2_.callees and isinstance(s2_.node, ast.Call):
+                                pos = f.posparams
+                                arg = None
+                                if node_txt in pos and pos.index(node_txt) < len(s2_.node.args):
+                                    arg = s2_.node.args[pos.index(node_txt)]
+                                for kw in s2_.node.keywords:
+                                    if kw.arg == node_txt:
+                                        arg = kw.value
+                                oks.append(arg is not None and positive_about(cf.get(id(s2_.node), frozenset()), u(arg)))
+                    ok = bool(oks) and all(oks)
+            rep.ob("EST", ok, call, f, construct="%s under the free-degree test" % st_.text[:60],
+                   how="dominated by a test that the node's free-degree counter is non-zero (establishes FREE_DEGREE at its use)",
+                   witness=None if ok else "the first-unmatched-neighbour search is reached for a node whose free-degree counter may be 0 "
+                   "(all neighbours matched): StopIteration escapes instead of EncoderError", nontrivial=True, key="FREE_DEGREE/" + f.name)
     # EST-AROMATIC_TABLES: the two element tables have one key set and kekulize() rejects other elements before pruning
     try:
         av = ctx.fold.global_value("selfies.constants", "AROMATIC_VALENCES")
